@@ -22,6 +22,20 @@ pub struct Case {
     pub other: (usize, usize),
 }
 
+/// Generator sets of capacity `cap` built in different ways (the capacity check must not depend on it):
+/// 0 = `new(cap, 1)`, 1 = grown from a smaller set by less than doubling, 2 = three parties.
+fn gens_variant<G: AffineRepr>(cap: usize, variant: u8) -> ark_bulletproofs::BulletproofGens<G> {
+    match variant {
+        1 if cap >= 2 => {
+            let mut g = ark_bulletproofs::BulletproofGens::<G>::new((cap / 2 + 1).min(cap - 1), 1);
+            g.increase_capacity(cap);
+            g
+        }
+        2 => ark_bulletproofs::BulletproofGens::<G>::new(cap, 3),
+        _ => ark_bulletproofs::BulletproofGens::<G>::new(cap, 1),
+    }
+}
+
 fn threshold(n: usize) -> usize {
     n.next_power_of_two().max(1)
 }
@@ -36,7 +50,11 @@ fn run_case<G: AffineRepr>(env: &Env<G>, c: &Case) -> CaseOut {
     let mut good = None;
     let detail = |cap: usize| json!({"program": prog, "n1": c.n1, "n2": c.n2, "capacity": cap, "threshold": t});
     for &cap in &c.caps {
-        let bp = env.bp_of(cap);
+        let variant = ((cap + c.n1) % 3) as u8;
+        let bp = gens_variant::<G>(cap, variant);
+        if bp.gens_capacity != cap {
+            o.violate("capacity-after-construction", format!("a generator set built for capacity {} (variant {}) reports capacity {}", cap, variant, bp.gens_capacity), detail(cap));
+        }
         o.evals += 1;
         let po = match guarded(|| prove::<G>(env, &prog, &[], &bp, c.seed ^ 9)) {
             Ok(p) => p,
@@ -95,7 +113,8 @@ fn run_case<G: AffineRepr>(env: &Env<G>, c: &Case) -> CaseOut {
         o.count("note: honest proof not accepted at the largest capacity (see C01)", 1);
     }
     for &cap in &c.caps {
-        let bp = env.bp_of(cap);
+        let variant = ((cap + c.n2 + 1) % 3) as u8;
+        let bp = gens_variant::<G>(cap, variant);
         o.evals += 1;
         let r = match guarded(|| crate::interp::cur::verify_program::<G>(&prog, &vs, &proof, &env.pc, &bp).res) {
             Ok(r) => r,
@@ -136,7 +155,7 @@ fn run_case<G: AffineRepr>(env: &Env<G>, c: &Case) -> CaseOut {
     if let Ok(p2) = &po2.proof {
         let tmax = t.max(t2);
         for &cap in &c.caps {
-            let bp = env.bp_of(cap);
+            let bp = gens_variant::<G>(cap, ((cap + c.n1 + c.n2) % 3) as u8);
             for order in 0..2 {
                 o.evals += 1;
                 let items = if order == 0 { vec![(&prog, &vs[..], &proof), (&prog2, &po2.vs[..], p2)] } else { vec![(&prog2, &po2.vs[..], p2), (&prog, &vs[..], &proof)] };
